@@ -280,3 +280,17 @@ PROPS['C05'] = {
     'assumptions': A_COMMON,
     'not_decided': ['tip set / split set / path lengths invariance as whole-tree consequences (L7, L2, L3: A-GRAPH)', 'outgroup is exactly one root clade (needs the LCA monophyly stretch contract)', 'root halfway along a longest path (needs MaxLengthPath maximality)'],
 }
+
+PROPS['C09'] = {
+    'level': 'proof', 'claimed': True,
+    'claim': 'unbounded proofs on the real code: Consensus rejects a threshold outside [0.5,1] before reading anything; every input tree is unrooted (its two root branches count as one split) before it is indexed and every one of its branches is counted exactly once; the splits kept are exactly the index entries whose count is strictly greater than trunc(cutoff*n) or equal to n - EdgeIndex.Edges is proved to return exactly the entries in that window (every returned entry is in it and every entry in it is returned) - and the lemma k > trunc(x) <=> k > x for integer k and x >= 0 turns this into "frequency strictly greater than the threshold or present in every tree"; each kept split is inserted with mean length Len/Count and support Count/n; the branch hash is side-symmetric (C04)',
+    'level_note': 'AddEdgeCount / AddBipartition / LeastCommonAncestorUnrooted / StarTreeFromTree / ReinitIndexes enter through assumed thin contracts; "number of branches in a class" = "number of trees containing the split" needs distinct branches of one tree to have distinct splits (unrooted, no degree-2 node) which UnRoot establishes for rooted input; "and no other split" in the output tree rests on the LCA stretch contract and A-GRAPH; rounding of cutoff*float64(n) (A-FP)',
+    'packages': ['./tree', './hashmap'],
+    'functions': [('tree.Consensus', {'match': [r'^callsite', r'^post', r'^inv']}),
+                  ('(*tree.EdgeIndex).Edges', {'match': [r'^post', r'^inv', r'^typeassert', r'^nil', r'^bounds', r'^pre']}),
+                  '(*tree.Edge).HashCode'],
+    'lemma_files': ['tree'],
+    'trusted_base': TB_COMMON,
+    'assumptions': A_COMMON,
+    'not_decided': ['count/len accumulation inside the index (hashmap + AddEdgeCount against an abstract map: C04 stretch)', 'order/rooting independence of the output tree shape (A-GRAPH)', 'taxon-set rejection clause'],
+}
